@@ -1,7 +1,7 @@
 #!/usr/bin/env python3
 """Import round-2 seeded changes produced by a sub-agent in /tmp/seed2/<P>/.scratch into /verif/seeded/<P>-{b,c}
 and confirm each in a FRESH scratch worktree of /repo: demo exits 0 without the change, the 316 tests pass with it,
-the demo exits 1 with it.   usage: tools/seed_import.py <P> [letters]"""
+the demo exits 1 with it.   usage: tools/seed_import.py <P> [letters] [source root]"""
 import json
 import os
 import shutil
@@ -19,7 +19,8 @@ def sh(cmd, cwd=None):
 def main():
     P = sys.argv[1]
     letters = sys.argv[2] if len(sys.argv) > 2 else "bc"
-    src = Path(f"/tmp/seed2/{P}/.scratch")
+    root = sys.argv[3] if len(sys.argv) > 3 else "/tmp/seed2"
+    src = Path(f"{root}/{P}/.scratch")
     for x in letters:
         patch = src / f"patch_{x}.diff"
         if not patch.exists():
@@ -41,6 +42,7 @@ def main():
             continue
         res = {}
         try:
+            (W / ".scratch").mkdir(exist_ok=True)
             shutil.copy(d / f"demo_{P}.py", W / f"demo_{P}.py")
             for extra in d.iterdir():
                 if extra.is_dir():
@@ -63,7 +65,7 @@ def main():
         ok = res.get("demo_without") == 0 and res.get("demo_with") == 1 and "316 passed" in res.get("tests", "")
         meta_p = d / "meta.json"
         meta = json.loads(meta_p.read_text()) if meta_p.exists() else {}
-        meta.update({"property": P, "origin": "independent sub-agent (round 2) given only the property text and its own worktree",
+        meta.update({"property": P, "origin": f"independent sub-agent ({root.rsplit('/', 1)[-1]}) given only the property text and its own worktree",
                      "confirmed": ok, "confirmation": res,
                      "how_run": "tools/seed_eval.py <seed> <checks>: git -C /repo apply patch.diff; ./bin/vcheck <id> --tier quick; git -C /repo checkout -- ."})
         meta_p.write_text(json.dumps(meta, indent=1) + "\n")
